@@ -284,14 +284,17 @@ def gen(rng, pool, cplx, depth, dom, ran, want_fn=False):
         mid = rng.choice(others)
         t = (f, gen(rng, pool, cplx, d, mid, ran, want_fn), gen(rng, pool, cplx, d, dom, mid))
         return t + ('@',) if rng.random() < 0.2 else t
+    # `@` is a synonym of `*` (all five product forms, reflected ones included)
+    at = ('@',) if (f in ('s.lmul', 's.rmul', 'v.lmul', 'v.lmulF', 'v.rmul') and
+                    rng.random() < 0.25) else ()
     if f in SOPS:
         return (f, gen(rng, pool, cplx, d, dom, ran, want_fn),
-                rand_scalar(rng, cplx, div=(f == 's.div')))
+                rand_scalar(rng, cplx, div=(f == 's.div'))) + at
     if f == 'v.lmulF':
-        return ('v.lmul', gen(rng, pool, cplx, d, dom, 'F'), rand_vec(rng, nran, cplx))
+        return ('v.lmul', gen(rng, pool, cplx, d, dom, 'F'), rand_vec(rng, nran, cplx)) + at
     if f == 'v.rmul':
-        return (f, gen(rng, pool, cplx, d, dom, ran, want_fn), rand_vec(rng, ndom, cplx))
-    return (f, gen(rng, pool, cplx, d, dom, ran), rand_vec(rng, nran, cplx))
+        return (f, gen(rng, pool, cplx, d, dom, ran, want_fn), rand_vec(rng, ndom, cplx)) + at
+    return (f, gen(rng, pool, cplx, d, dom, ran), rand_vec(rng, nran, cplx)) + at
 
 
 def rpn(ast, ren=None):
@@ -340,6 +343,8 @@ def show(ast):
         return 'FunctionalQuotient({}, {})'.format(show(ast[1]), show(ast[2]))
     arg = repr(ast[2]) if k in SOPS else 'vec' + repr(ast[2])
     o = k.split('.')[1]
+    if len(ast) > 3:
+        return ('({1} @ {0})' if o == 'lmul' else '({0} @ {1})').format(show(ast[1]), arg)
     table = {'lmul': '({1} * {0})', 'rmul': '({0} * {1})', 'div': '({0} / {1})',
              'add': '({0} + {1})', 'radd': '({1} + {0})', 'sub': '({0} - {1})',
              'rsub': '({1} - {0})'}
@@ -398,6 +403,9 @@ def pybuild(ast, pool, spaces):
                 return odl.solvers.FunctionalProduct(a, b)
             return odl.OperatorPointwiseProduct(a, b)
         return odl.solvers.FunctionalQuotient(a, b)
+    if len(ast) > 3 and k in ('s.lmul', 's.rmul', 'v.lmul', 'v.rmul'):
+        o = ast[2] if k in SOPS else vec_space(spaces, ast[2]).element(ast[2])
+        return (o @ a) if k.endswith('lmul') else (a @ o)
     if k in SOPS:
         s = ast[2]
         return {'s.lmul': lambda: s * a, 's.rmul': lambda: a * s, 's.div': lambda: a / s,
@@ -772,6 +780,8 @@ def showv(v):
 
 def forms_of(ast):
     out = {ast[0]}
+    if len(ast) > 3:
+        out.add('matmul')
     for a in ast[1:3]:
         if isinstance(a, tuple):
             out |= forms_of(a)
@@ -809,6 +819,14 @@ def level_forms(rng, pool, cplx, inner_ast, ty):
     for k in VOPS:
         n = nd if k == 'v.rmul' else nr
         out.append((k, inner_ast, rand_vec(rng, n, cplx)))
+    # the `@` spelling of the five product forms
+    for s in (2, 0):
+        out += [('s.lmul', inner_ast, s, '@'), ('s.rmul', inner_ast, s, '@')]
+    out += [('v.lmul', inner_ast, rand_vec(rng, nr, cplx), '@'),
+            ('v.rmul', inner_ast, rand_vec(rng, nd, cplx), '@')]
+    if r == 'F':
+        # vector @ functional with the vector in ANOTHER space than the domain
+        out.append(('v.lmul', inner_ast, rand_vec(rng, 5 - nd if nd in (2, 3) else 2, cplx), '@'))
     # binary with every leaf of a compatible shape, both orders
     for j, l in enumerate(pool):
         other = ('L', j)
@@ -819,8 +837,10 @@ def level_forms(rng, pool, cplx, inner_ast, ty):
                 out += [('quot', inner_ast, other), ('quot', other, inner_ast)]
         if l.ran == d:
             out.append(('mul', inner_ast, other))
+            out.append(('mul', inner_ast, other, '@'))
         if l.dom == r:
             out.append(('mul', other, inner_ast))
+            out.append(('mul', other, inner_ast, '@'))
     return out
 
 
@@ -844,7 +864,7 @@ def systematic_cases(ctx, pool, cplx, leaf_kinds):
             if ty1 is None or ty1[0] == 'F':
                 continue
             twos = level_forms(rng, pool, cplx, one, ty1)
-            keep = (0.25 if cplx else 0.4) if ctx.quick else 0.8
+            keep = (0.2 if cplx else 0.3) if ctx.quick else 0.8
             twos = [t for t in twos if rng.random() < keep]
             for two in twos:
                 if degree(two, pool) > 12:
@@ -934,7 +954,7 @@ def key_of(case, real, pool):
     used = sorted({pool[int(t[2:])].kind for t in rpn(ast) if t.startswith('L~')})
     sub = ast[1][0] if isinstance(ast[1], tuple) else ''
     return 'expr root={} under={} forms={} leaves={} field={}'.format(
-        ast[0], sub, '+'.join(sorted(forms_of(ast) - {'L'})), '+'.join(used),
+        ast[0] + ('@' if len(ast) > 3 else ''), sub, '+'.join(sorted(forms_of(ast) - {'L'})), '+'.join(used),
         'complex' if case['cplx'] else 'real')
 
 
@@ -1105,12 +1125,17 @@ def setup(ctx, cplx, pool_seed):
     return pool, spaces, pool_ids
 
 
-def stream(ctx, cplx, pool_seed, it, count=True):
+def stream(ctx, cplx, pool_seed, it, count=True, batch=6000, deadline=None):
+    """Run a case stream; with `deadline` (search only) stop at the first batch that produced an
+    oracle failure or when the time is up."""
+    import time
     pool, spaces, pool_ids = setup(ctx, cplx, pool_seed)
-    for b in batches(it(pool), 6000):
+    for b in batches(it(pool), batch):
         for c in b:
             c['pool_seed'] = pool_seed
         process(ctx, b, pool, spaces, pool_ids, count)
+        if deadline is not None and (PENDING or time.time() > deadline):
+            return
 
 
 MODEL_BRANCHES = ['class/' + n for n in (
@@ -1150,25 +1175,29 @@ def _run(ctx):
         stream(ctx, cplx, seed, lambda pool: targeted_cases(ctx, pool, cplx))
 
 
+SEARCH_SECONDS = 50
+
+
 def search(ctx, broken):
     """An obligation / the correspondence broke without an oracle failure in `run`: look
-    harder on the REAL code with the oracle (full two-level enumeration on both fields, more
-    and deeper random trees)."""
+    harder on the REAL code with the oracle, for at most ~SEARCH_SECONDS: the targeted streams,
+    the full two-level enumeration (unsampled, more leaf kinds) and deeper random trees, real
+    field first; stops at the first batch with a failing input."""
+    import time
+    deadline = time.time() + SEARCH_SECONDS
     saved = ctx.tier
     ctx.tier = 'thorough'
     try:
         kinds = ('pow2', 'pow3', 'mat', 'scale', 'l2sq', 'linf', 'inner', 'constf', 'zerof')
         for cplx in (False, True):
             seed = ctx.rng.getrandbits(32)
-            stream(ctx, cplx, seed, lambda pool: systematic_cases(ctx, pool, cplx, kinds),
-                   count=False)
-            if PENDING:
-                return
-            seed = ctx.rng.getrandbits(32)
-            stream(ctx, cplx, seed, lambda pool: random_cases(ctx, pool, cplx, 3000, 8),
-                   count=False)
-            if PENDING:
-                return
+            steps = [lambda pool: targeted_cases(ctx, pool, cplx),
+                     lambda pool: systematic_cases(ctx, pool, cplx, kinds),
+                     lambda pool: random_cases(ctx, pool, cplx, 3000, 8)]
+            for it in steps:
+                stream(ctx, cplx, seed, it, count=False, batch=1500, deadline=deadline)
+                if PENDING or time.time() > deadline:
+                    return
     finally:
         ctx.tier = saved
         flush(ctx)
